@@ -738,7 +738,19 @@ func (e *Exec) callFnBody(caller *frame, fn *ssa.Function, args []Value, env []V
 	return fr.result
 }
 
+// stackNames: names of the innermost n interpreted functions (debugging notes)
+func (e *Exec) stackNames(n int) []string {
+	var out []string
+	for fr := e.curFr; fr != nil && len(out) < n; fr = fr.caller {
+		out = append(out, fr.fn.Name())
+	}
+	return out
+}
+
 func (e *Exec) runFrame(fr *frame) {
+	saved := e.curFr
+	e.curFr = fr
+	defer func() { e.curFr = saved }()
 	defer func() {
 		if fr.block == nil {
 			return // normal return
